@@ -12,6 +12,7 @@ import TonVerif.Proofs.SrcArith2
 import TonVerif.Generated.MsgLayout
 import TonVerif.Proofs.SrcMsg
 import TonVerif.Proofs.SrcMsgSer
+import TonVerif.Proofs.SrcWrap
 
 namespace TonVerif.Properties.C15
 open TonVerif TonVerif.Model TonVerif.Spec.Tlb TonVerif.Proofs.Message TonVerif.Proofs.MsgBits
@@ -852,4 +853,139 @@ theorem c15_src_layout_connected (ops : CellOps R) (ht : ops.Total) (m : Msg R) 
 
 end SrcWhole
 
+/-! ## the stand-alone wrappers regenerated from the source (Generated/WrapSrc.lean)
+
+`Generated.WrapSrc.*` are re-translated from tlb/custom/wallet.py and tlb/custom/nft.py on every run (harness/translate/wrapsrc.py):
+the constructors (`<Class>_init`, `none` = raises), `serialize`, `deserialize` of `WalletV3Data`, `WalletV4Data`,
+`HighloadWalletData`, `WalletMessage`, `NftItemData`, `NftItemSaleFees`, `NftItemSaleData`. -/
+section SrcWrappers
+open TonVerif.Generated.MsgSrc TonVerif.Generated.WrapSrc TonVerif.Proofs.SrcMsg TonVerif.Proofs.SrcMsgSer TonVerif.Proofs.SrcWrap
+
+/-- `c15_src_wrapper_defaults`: **the constructors as regenerated from the source.**  `WalletV3Data / WalletV4Data /
+    HighloadWalletData(.., wallet_id, public_key, ..)`: `public_key is None` raises; otherwise the object holds the arguments, with
+    `wallet_id` replaced by 698983191 exactly when it `is None` — every int is kept, **0 included** (`wallet_id or default` would
+    lose it).  The other constructors store their arguments unchanged (the `isinstance(.., str)` conversions of the NFT classes
+    never apply to an address value). -/
+theorem c15_src_wrapper_defaults (s lc mode : Int) (w : Option Int) (pk : Option Bytes) (k : Bytes) (p q : Option R) :
+    WalletV3Data_init s w pk = pk.map (fun k => ⟨s, w.getD 698983191, k⟩) ∧
+    WalletV4Data_init s w pk p = pk.map (fun k => ⟨s, w.getD 698983191, k, p⟩) ∧
+    HighloadWalletData_init w lc pk q = pk.map (fun k => ⟨w.getD 698983191, lc, k, q⟩) ∧
+    WalletV3Data_init s none (some k) = some ⟨s, 698983191, k⟩ ∧
+    WalletV3Data_init s (some 0) (some k) = some ⟨s, 0, k⟩ ∧
+    WalletV3Data_init s w none = none ∧
+    (∀ m : Msg R, WalletMessage_init mode m = some ⟨mode, m⟩) ∧
+    (∀ (i : Int) (c o : Addr) (r : R), NftItemData_init i c o r = some ⟨i, c, o, r⟩) ∧
+    (∀ (a : Addr) (f : Int) (b : Addr) (r : Int), NftItemSaleFees_init a f b r = some ⟨a, f, b, r⟩) ∧
+    (∀ (c : Bool) (t : Int) (m n o : Addr) (pr : Int) (f : SaleFees) (e : Bool),
+      NftItemSaleData_init c t m n o pr f e = some ⟨c, t, m, n, o, pr, f, e⟩) :=
+  ⟨v3_init s w pk, v4_init s w pk p, hl_init w lc pk q, v3_init s none (some k), v3_init s (some 0) (some k), by rw [v3_init]; rfl,
+    wm_init mode, nft_init, fees_init, sale_init⟩
+
+/-- `c15_src_wrappers`: **the regenerated `serialize` / `deserialize` of every wrapper of tlb/custom/*.py ARE the hand model's**
+    (`Model/Wrappers.lean`), for all inputs: same raise decision, same cell; the parsers (through the regenerated constructors)
+    are the same function on every slice (value and slice state afterwards).  So the `c15_wallet_*`, `c15_highload_*`,
+    `c15_wallet_message_*`, `c15_nft_item_*`, `c15_sale_*` theorems speak about the regenerated code.  `Lawful` / `Total` are needed
+    only for `WalletMessage.serialize` (it contains `MessageAny.serialize`, see `c15_src_serialize`). -/
+theorem c15_src_wrappers (ops : CellOps R) (hl : ops.Lawful) (ht : ops.Total) :
+    ((∀ w, (WalletV3Data_serialize ops.make w).map (·.cell) = Message.serializeWalletV3 ops w) ∧
+     (∀ w, (WalletV4Data_serialize ops.make w).map (·.cell) = Message.serializeWalletV4 ops w) ∧
+     (∀ w, (HighloadWalletData_serialize ops.make w).map (·.cell) = Message.serializeHighload ops w) ∧
+     (∀ w, (WalletMessage_serialize ops.make w).map (·.cell) = Message.serializeWalletMsg ops w) ∧
+     (∀ n, (NftItemData_serialize ops.make n).map (·.cell) = Message.serializeNftItem ops n) ∧
+     (∀ f, (NftItemSaleFees_serialize ops.make f).map (·.cell) = Message.serializeSaleFees ops f) ∧
+     (∀ s, (NftItemSaleData_serialize ops.make s).map (·.cell) = Message.serializeSaleData ops s)) ∧
+    (WalletV3Data_deserialize ops.view = (Message.loadWalletV3 : SOp R WalletV3) ∧
+     WalletV4Data_deserialize ops.view = (Message.loadWalletV4 : SOp R (WalletV4 R)) ∧
+     HighloadWalletData_deserialize ops.view = (Message.loadHighload : SOp R (Highload R)) ∧
+     WalletMessage_deserialize ops.view = Message.loadWalletMsg ops ∧
+     NftItemData_deserialize ops.view = (Message.loadNftItem : SOp R (NftItem R)) ∧
+     NftItemSaleFees_deserialize ops.view = (Message.loadSaleFees : SOp R SaleFees) ∧
+     NftItemSaleData_deserialize ops.view = Message.loadSaleData ops) :=
+  ⟨⟨fun w => by rw [v3_ser_eq, build_cellOf]; rfl, fun w => by rw [v4_ser_eq, build_cellOf]; rfl,
+    fun w => by rw [hl_ser_eq, build_cellOf]; rfl, wm_ser_eq ops hl ht, fun n => by rw [nft_ser_eq, build_cellOf]; rfl,
+    fun f => by rw [fees_ser_eq, build_cellOf]; rfl, sale_ser_eq ops⟩,
+   ⟨v3_de_eq, v4_de_eq, hl_de_eq, wm_de_eq ops, nft_de_eq, fees_de_eq, sale_de_eq ops⟩⟩
+
+/-- `c15_src_wallet_v3_roundtrip`: **constructor → regenerated `serialize` → regenerated `deserialize` = the object**, the default
+    included: for `seqno < 2^32`, a 32-byte key and `wallet_id` either `None` or an int `< 2^32` (0 allowed), the constructor
+    returns the object `w` with `wallet_id` 698983191 resp. the given int, `serialize` returns a cell (320 bits, the spec
+    encoding), and `deserialize` of that cell returns `w` (through the constructor again: an int is never replaced). -/
+theorem c15_src_wallet_v3_roundtrip (ops : CellOps R) (hl : ops.Lawful) (ht : ops.Total) (seqno : Int) (wid : Option Int) (pk : Bytes)
+    (hs : 0 ≤ seqno ∧ seqno < 2 ^ 32) (hi : ∀ i, wid = some i → 0 ≤ i ∧ i < 2 ^ 32) (hk : pk.length = 32 ∧ Bytes.WF pk) :
+    ∃ w p, WalletV3Data_init seqno wid (some pk) = some w ∧ w = ⟨seqno, wid.getD 698983191, pk⟩ ∧
+      WalletV3Data_serialize ops.make w = some p ∧
+      (WalletV3Data_deserialize ops.view ⟨(ops.view p.cell).1, (ops.view p.cell).2⟩).2 = some w := by
+  refine ⟨⟨seqno, wid.getD 698983191, pk⟩, ?_⟩
+  have hw : 0 ≤ wid.getD 698983191 ∧ wid.getD 698983191 < 2 ^ 32 := by
+    cases wid with
+    | none => simp
+    | some i => simpa using hi i rfl
+  obtain ⟨ch, he, _, _, hser, hsome⟩ := c15_wallet_v3_serialize ops ht ⟨seqno, wid.getD 698983191, pk⟩ hs hw hk
+  obtain ⟨c, hc⟩ := Option.isSome_iff_exists.mp hsome
+  have hd := c15_wallet_v3_own_parser ops c _ (c15_wallet_v3_decodes ops hl _ he (hser ▸ hc))
+  have hsrc := (c15_src_wrappers ops hl ht).1.1 ⟨seqno, wid.getD 698983191, pk⟩
+  rw [hc] at hsrc
+  cases hp : WalletV3Data_serialize ops.make ⟨seqno, wid.getD 698983191, pk⟩ with
+  | none => simp [hp] at hsrc
+  | some p =>
+    simp only [hp, Option.map_some, Option.some.injEq] at hsrc
+    refine ⟨p, by rw [v3_init]; rfl, rfl, rfl, ?_⟩
+    rw [v3_de_eq, hsrc]; exact hd
+
+/-- non-vacuity / the two cases that matter: no wallet id → the default; wallet id 0 → 0 -/
+example : ∃ p, WalletV3Data_serialize tops.make ⟨5, 698983191, key7⟩ = some p ∧ WalletV3Data_init 5 none (some key7) = some ⟨5, 698983191, key7⟩ ∧
+    (WalletV3Data_deserialize tops.view ⟨(tops.view p.cell).1, (tops.view p.cell).2⟩).2 = some ⟨5, 698983191, key7⟩ := by
+  obtain ⟨w, p, h1, h2, h3, h4⟩ := c15_src_wallet_v3_roundtrip tops tops_lawful tops_total 5 none key7 (by decide) (by intro i h; cases h)
+    (by decide)
+  subst h2
+  exact ⟨p, h3, h1, h4⟩
+
+example : ∃ p, WalletV3Data_serialize tops.make ⟨5, 0, key7⟩ = some p ∧ WalletV3Data_init 5 (some 0) (some key7) = some ⟨5, 0, key7⟩ ∧
+    (WalletV3Data_deserialize tops.view ⟨(tops.view p.cell).1, (tops.view p.cell).2⟩).2 = some ⟨5, 0, key7⟩ := by
+  obtain ⟨w, p, h1, h2, h3, h4⟩ := c15_src_wallet_v3_roundtrip tops tops_lawful tops_total 5 (some 0) key7 (by decide)
+    (by intro i h; cases h; decide) (by decide)
+  subst h2
+  exact ⟨p, h3, h1, h4⟩
+
+/-- `c15_src_highload_roundtrip`: the same for `HighloadWalletData`, old queries (the dictionary root) INCLUDED — the statement that
+    failed before the fix of F23, now about the regenerated `serialize` / `deserialize` -/
+theorem c15_src_highload_roundtrip (ops : CellOps R) (hl : ops.Lawful) (ht : ops.Total) (w : Highload R)
+    (hi : 0 ≤ w.walletId ∧ w.walletId < 2 ^ 32) (hc : 0 ≤ w.lastCleaned ∧ w.lastCleaned < 2 ^ 64)
+    (hk : w.publicKey.length = 32 ∧ Bytes.WF w.publicKey) :
+    ∃ p, HighloadWalletData_serialize ops.make w = some p ∧
+      (HighloadWalletData_deserialize ops.view ⟨(ops.view p.cell).1, (ops.view p.cell).2⟩).2 = some w := by
+  obtain ⟨c, hs, _, hd⟩ := c15_highload_round_trip ops hl ht w hi hc hk
+  have hsrc := (c15_src_wrappers ops hl ht).1.2.2.1 w
+  rw [hs] at hsrc
+  cases hp : HighloadWalletData_serialize ops.make w with
+  | none => simp [hp] at hsrc
+  | some p =>
+    simp only [hp, Option.map_some, Option.some.injEq] at hsrc
+    exact ⟨p, rfl, by rw [hl_de_eq, hsrc]; exact hd⟩
+
+example : ∃ p, HighloadWalletData_serialize tops.make hq = some p ∧
+    (HighloadWalletData_deserialize tops.view ⟨(tops.view p.cell).1, (tops.view p.cell).2⟩).2 = some hq :=
+  c15_src_highload_roundtrip tops tops_lawful tops_total hq (by decide) (by decide) (by decide)
+
+/-- `c15_src_wallet_message_roundtrip`: regenerated `WalletMessage.serialize` (which runs the regenerated `MessageAny.serialize` and
+    stores the cell by reference), then regenerated `WalletMessage.deserialize` (which runs the regenerated
+    `MessageAny.deserialize` on the referenced cell) = the wallet message, under the bound of `c15_never_overflows` -/
+theorem c15_src_wallet_message_roundtrip (ops : CellOps R) (hl : ops.Lawful) (ht : ops.Total) (w : WalletMsg R)
+    (hwf : w.message.info.WF) (hmode : 0 ≤ w.sendMode ∧ w.sendMode < 256)
+    {ib : Bits} {ir : List R} (hinfo : encInfo w.message.info = some (ib, ir))
+    (hI : ib.length + (if w.message.init.isSome then 3 else 2) ≤ 1023)
+    (hinit : ∀ s, w.message.init = some s → (encStateInit s).isSome)
+    (hbody : w.message.body.1.length ≤ 1023 ∧ w.message.body.2.length ≤ 4) :
+    ∃ p, WalletMessage_serialize ops.make w = some p ∧
+      (WalletMessage_deserialize ops.view ⟨(ops.view p.cell).1, (ops.view p.cell).2⟩).2 = some w := by
+  obtain ⟨c, hs, _, hd⟩ := c15_wallet_message_round_trip ops hl ht w hwf hmode hinfo hI hinit hbody
+  have hsrc := (c15_src_wrappers ops hl ht).1.2.2.2.1 w
+  rw [hs] at hsrc
+  cases hp : WalletMessage_serialize ops.make w with
+  | none => simp [hp] at hsrc
+  | some p =>
+    simp only [hp, Option.map_some, Option.some.injEq] at hsrc
+    exact ⟨p, rfl, by rw [wm_de_eq, hsrc]; exact hd⟩
+
+end SrcWrappers
 end TonVerif.Properties.C15
